@@ -804,15 +804,21 @@ class TableRow(BlockToken):
         row_align (list): align options for each column (default to [None]).
     """
     repr_attributes = BlockToken.repr_attributes + ("row_align",)
-    # Note: Python regex requires fixed-length look-behind,
-    # so we cannot use a more precise alternative: r"(?<!\\(?:\\\\)*)(\|)"
-    split_pattern = re.compile(r"(?<!\\)\|")
+    # A pipe delimits cells unless it is backslash-escaped. Escape pairs are skipped
+    # from the left, so that a pipe after an escaped backslash ("\\\\|") still delimits.
+    split_pattern = re.compile(r"\\.|\|")
     escaped_pipe_pattern = re.compile(r"(?<!\\)(\\\\)*\\\|")
 
     def __init__(self, line, row_align=None, line_number=None):
         self.row_align = row_align or [None]
         self.line_number = line_number
-        cells = self.split_pattern.split(line.strip())
+        line = line.strip()
+        cells, start = [], 0
+        for match in self.split_pattern.finditer(line):
+            if match.group() == '|':
+                cells.append(line[start:match.start()])
+                start = match.end()
+        cells.append(line[start:])
         # the pipes at the two ends of the row are optional and delimit nothing;
         # an empty cell inside the row ("|a||b|") is a cell
         if cells[0] == '':
